@@ -388,3 +388,20 @@ def run(ck):
             ok = not local_writes(dec, an['d'])
     ck.ob('C17.uri', 'C17.uri/body-unmodified', ok, dec.loc(b64[0]),
           'base64_decode receives uri.substr(strlen(scheme)) as is — no trimming or rewriting of characters that belong to the base64 alphabet')
+
+    # ---- the decoder restores scalar fields once, from the wire: nothing re-interprets a decoded flag or count afterwards ------
+    from props.common import assignments as _assignments
+    from sa.prog import int_type as _int_type
+    per_field = {}
+    for l_, r_, s_ in _assignments(dec):
+        ln = dec.nodes[dec.strip(l_, casts=False)]
+        if ln['k'] != 'MemberExpr' or ln.get('mk') != 'Field':
+            continue
+        t_ = (ln.get('ft') or ln.get('t') or '').replace('const ', '')
+        if _int_type(t_) is None and 'time_point' not in t_:
+            continue
+        per_field.setdefault(ln.get('m'), []).append(s_)
+    ck.floor('C17.decode', 'scalar fields restored by decode_manifest', len(per_field), 6)
+    for m, sites in sorted(per_field.items()):
+        ck.ob('C17.decode', 'C17.decode/once/' + m.replace('ephemeralnet::protocol::', ''), len(sites) == 1, dec.loc(sites[-1]),
+              '%s is assigned exactly once in decode_manifest, from the bytes read (%d assignment(s))' % (m.replace('ephemeralnet::protocol::', ''), len(sites)))
